@@ -53,6 +53,9 @@ const (
 	maxWriteBits = 1968
 	maxWriteRegs = 123
 	maxAddress   = 0x10000
+
+	// largest application data unit (RTU 256 bytes, TCP 260 bytes)
+	maxADUSize = 260
 )
 
 // minRequestLen is the minimum number of PDU bytes for a request with
